@@ -83,6 +83,15 @@ def run(fx, R, tier):
         return
     full = [st for st in paths if sum(1 for k in st.fields if k[0] == 'comma') == 9]
     skip = [st for st in paths if st not in full]
+    if not full and fwd is not None:
+        # the frame may be assembled from whole vectors (constructed, normalised, crossed) instead of comma initialisers
+        try:
+            vpaths = sym.Reader(fx, call_hook=vector_frame_hook(fwd)).run(fa)
+        except sym.Unsupported:
+            vpaths = []
+        vfull = [st for st in vpaths if sum(1 for k in st.fields if k[0] == 'frame') == 3]
+        if vfull:
+            paths, full, skip = vpaths, vfull, [st for st in vpaths if st not in vfull]
     if not full:
         R.undecided('E1', 'ENUConverter::setAnchor', 'no path writes the nine rotation entries through comma initialisers')
         return
@@ -93,7 +102,61 @@ def run(fx, R, tier):
     check_conversions(fx, R)
 
 
+def vector_frame_hook(fwd):
+    """Reader hook for a frame built from Eigen 3-vectors: enu2ecef_.translation() reads as the forward map of the stored anchor,
+    enu2ecef_.linear().col(k) = v records column k, v.normalize() rescales a local in place; everything else: enu_hook / mat.hook."""
+    from .. import mat
+    from ..tree import const_value
+
+    def as_vector(t):
+        if isinstance(t, sp.Basic) and str(t.func) == 'toECEF' and len(t.args) == 3:
+            sub = {fwd['lat']: t.args[0], fwd['lon']: t.args[1], fwd['alt']: t.args[2]}
+            return sp.ImmutableMatrix(3, 1, [fwd[c].subs(sub, simultaneous=True) for c in ('X', 'Y', 'Z')])
+        return t
+
+    def hook(rd, e, st, ctx):
+        k = e.get('k')
+        if k == 'Store':
+            l = strip_casts(e['lhs'])
+            if l.get('k') == 'MCall' and l.get('m') == 'col' and len(l.get('args', [])) == 1:
+                o_ = strip_casts(l['obj'])
+                kk = const_value(l['args'][0])
+                if o_.get('k') == 'MCall' and o_.get('m') == 'linear' and kk is not None and isinstance(e['value'], sp.MatrixBase) and e['op'] == '=':
+                    st.fields[('frame', int(kk))] = sp.ImmutableMatrix(e['value'])
+                    return [(e['value'], st)]
+        if k == 'MCall' and e.get('m') == 'translation' and not e.get('args'):
+            lv = rd.lvalue(e['obj'], st, ctx)
+            if lv and lv[0] == 'field':
+                t = st.fields.get(lv[1] + ('translation()',))
+                v = as_vector(t)
+                if isinstance(v, sp.MatrixBase):
+                    return [(v, st)]
+        if k == 'MCall' and e.get('m') in ('normalize', 'normalized') and not e.get('args'):
+            out = []
+            for (ov, s2) in rd.ev(e['obj'], st, ctx):
+                if not isinstance(ov, sp.MatrixBase):
+                    return NotImplemented
+                nv = sp.ImmutableMatrix(ov / sp.sqrt(sum(x_ ** 2 for x_ in ov)))
+                if e['m'] == 'normalize':
+                    lv = rd.lvalue(e['obj'], s2, ctx)
+                    if not lv or lv[0] != 'local':
+                        return NotImplemented
+                    rd.assign(lv, nv, s2)
+                    out.append((None, s2))
+                else:
+                    out.append((nv, s2))
+            return out
+        r = geo.enu_hook(rd, e, st, ctx)
+        if r is NotImplemented:
+            r = mat.hook(rd, e, st, ctx)
+        return r
+    return hook
+
+
 def frame_of(st):
+    fc = {k[1]: v for k, v in st.fields.items() if k[0] == 'frame'}
+    if sorted(fc) == [0, 1, 2] and all(isinstance(v, sp.MatrixBase) and v.shape == (3, 1) for v in fc.values()):
+        return sp.Matrix(3, 3, lambda i, j: fc[j][i, 0])
     cols = {}
     for k, v in st.fields.items():
         if k[0] == 'comma':
@@ -112,9 +175,10 @@ def check_frame(fx, R, fa, st, fwd, tag):
     if M is None:
         R.undecided('E1', 'ENUConverter::setAnchor:frame' + tag, 'columns 0..2 of enu2ecef_.linear() are not each written with three entries')
         return
-    G = sp.simplify(M.T * M - sp.eye(3))
+    G = alg.simp(M.T * M - sp.eye(3))
     alg.check_zero(R, G, 'E1', 'ENUConverter::setAnchor:orthonormal' + tag, 'R^T R - I = %s (should vanish)' % (G.tolist(),), 'R^T R = I', loc)
-    d = sp.simplify(M.det())
+    det3 = M[0, 0] * (M[1, 1] * M[2, 2] - M[1, 2] * M[2, 1]) - M[0, 1] * (M[1, 0] * M[2, 2] - M[1, 2] * M[2, 0]) + M[0, 2] * (M[1, 0] * M[2, 1] - M[1, 1] * M[2, 0])
+    d = alg.simp(det3)            # cofactor form, never expanded (Matrix.det() expands big entries for minutes)
     alg.check_zero(R, d - 1, 'E1', 'ENUConverter::setAnchor:determinant' + tag, 'det R = %s (a proper rotation needs +1: -1 is a mirrored frame)' % d, 'det R = +1', loc)
     syms = {s.name: s for s in M.free_symbols}
     latn = [n for n in syms if n.endswith('.latitude')]
@@ -127,15 +191,15 @@ def check_frame(fx, R, fa, st, fwd, tag):
     if fwd is not None:
         sub = {fwd['lat']: lat, fwd['lon']: lon}
         P = sp.Matrix([fwd['X'], fwd['Y'], fwd['Z']]).subs(sub)
-        up = sp.simplify(P.diff(fwd['alt']))
-        alg.check_zero(R, sp.simplify(up - M[:, 2]), 'E2', 'ENUConverter::setAnchor:up' + tag,
+        up = alg.simp(P.diff(fwd['alt']))
+        alg.check_zero(R, alg.simp(up - M[:, 2]), 'E2', 'ENUConverter::setAnchor:up' + tag,
                        'col(2) = %s but the altitude direction of toECEF is %s: a point h above the reference does not map to (0,0,h)' % (M[:, 2].T.tolist(), up.T.tolist()),
                        'col(2) = d toECEF / d altitude', loc)
         de = P.diff(lon)
-        cross = sp.simplify(M[:, 0].cross(de))
-        dot = sp.simplify(M[:, 0].dot(de))
+        cross = alg.simp(M[:, 0].cross(de))
+        dot = alg.simp(M[:, 0].dot(de))
         # col(0) is the unit vector along d toECEF/d lon  <=>  cross = 0, (col0.de)^2 = |de|^2 and col0.de > 0 (sign fixed on the connected domain: one sample decides it)
-        unitlen = sp.simplify(dot ** 2 - de.dot(de))
+        unitlen = alg.simp(dot ** 2 - de.dot(de))
         sample = {sy: (sp.Rational(3, 10) if 'latitude' in sy.name else sp.Rational(1, 5) if 'longitude' in sy.name else sp.Integer(10) if 'altitude' in sy.name
                        else sp.Rational(1, 150) if sy.name.endswith('e2') else sp.Integer(6378137)) for sy in dot.free_symbols}
         positive = bool(dot.subs(sample).evalf() > 0)
@@ -143,7 +207,7 @@ def check_frame(fx, R, fa, st, fwd, tag):
                        'col(0) x d toECEF/d lon = %s, (col(0) . d toECEF/d lon) = %s (expected parallel with a positive factor): the first axis does not point east' % (cross.T.tolist(), dot),
                        'col(0) = unit vector along d toECEF / d longitude', loc, extra_ok=positive,
                        extra_what='col(0) is anti-parallel to d toECEF/d lon (col(0) . d toECEF/d lon = %s < 0 at a sample anchor): the first axis points west' % dot)
-    north = sp.simplify(M[:, 2].cross(M[:, 0]) - M[:, 1])
+    north = alg.simp(M[:, 2].cross(M[:, 0]) - M[:, 1])
     alg.check_zero(R, north, 'E2', 'ENUConverter::setAnchor:north' + tag, 'col(1) - col(2) x col(0) = %s: the second axis is not north' % (north.T.tolist(),),
                    'col(1) = up x east', loc)
     # ---- E3 translation ---------------------------------------------------------
@@ -249,7 +313,7 @@ def check_protocol(fx, R, fa, fr):
     except sym.Unsupported as u:
         R.undecided('E4', 'ENUConverter::toENU(geodetic)', str(u))
         return
-    ok, why = True, ''
+    fact, unknown = None, None
     seen_unanchored = False
     for st in ps:
         flag_conds = [c for c in st.cond if isinstance(c[1], sp.Basic) and any(s.name == 'this.isAnchored_' for s in c[1].free_symbols)]
@@ -258,15 +322,24 @@ def check_protocol(fx, R, fa, fr):
             seen_unanchored = True
             anc = st.fields.get(('this', 'wgs84Anchor_'))
             t = st.fields.get(('this', 'enu2ecef_', 'translation()'))
-            if not (isinstance(anc, sp.Symbol) and anc.name == 'arg:geodeticCoordinates' and st.fields.get(('this', 'isAnchored_')) == 1 and t is not None):
-                ok, why = False, 'on the un-anchored path the converter is not anchored on the point being converted (anchor=%s, flag=%s)' % (anc, st.fields.get(('this', 'isAnchored_')))
+            flag = st.fields.get(('this', 'isAnchored_'))
+            if not (isinstance(anc, sp.Symbol) and anc.name == 'arg:geodeticCoordinates' and flag == 1 and t is not None):
+                if anc is None or flag in (None, 0) or (isinstance(anc, sp.Symbol) and anc.name != 'arg:geodeticCoordinates'):
+                    fact = fact or 'on the un-anchored path the converter is not anchored on the point being converted (anchor=%s, flag=%s)' % (anc, flag)
+                else:
+                    unknown = unknown or 'state after the un-anchored path not readable (anchor=%s, flag=%s)' % (anc, flag)
         r = st.ret
         want = 'inverse(this.enu2ecef_'
         if not (isinstance(r, sp.Basic) and want in str(r) and 'toECEF(geodeticCoordinates.latitude, geodeticCoordinates.longitude, geodeticCoordinates.altitude)' in str(r)):
-            ok, why = False, 'result is %s, expected enu2ecef_.inverse() * toECEF(point)' % r
+            unknown = unknown or 'result %s is not in the enumerated form enu2ecef_.inverse() * toECEF(point)' % r
+    calls_anchor = any(x.get('k') == 'MCall' and x.get('m') == 'setAnchor' for x in walk(fg[0]['body']))
     if not seen_unanchored:
-        ok, why = False, 'no path anchors an un-anchored converter on its first geodetic point'
-    R.check(ok, 'E4', 'ENUConverter::toENU(geodetic):auto-anchor', why, 'un-anchored => setAnchor(point) before converting', fx.rel(fg[0]['loc']), 'E-STATE')
+        if not calls_anchor:
+            fact = fact or 'toENU(geodetic) never calls setAnchor: an un-anchored converter is not anchored on its first geodetic point'
+        else:
+            unknown = unknown or 'no path is recognised as the un-anchored one'
+    R.form(fact is None and unknown is None, 'E4', 'ENUConverter::toENU(geodetic):auto-anchor', unknown or '', 'un-anchored => setAnchor(point) before converting', fx.rel(fg[0]['loc']), 'E-STATE',
+           facts=[(fact is not None, fact)])
 
 
 def check_conversions(fx, R):
